@@ -35,14 +35,18 @@ def _shrink_task(task: dict) -> dict:
                 improved = True
                 break
     final = mod.evaluate(scenario)
-    return {"scenario": scenario, "signature": final, "evals": evals}
+    return {"scenario": scenario, "signature": final, "evals": evals, "site": getattr(mod, "LAST_SITE", None)}
+
+
+def _mem(module: str) -> float:
+    return getattr(importlib.import_module(module), "MEM_GIB", 8.0)
 
 
 def shrink(module: str, scenario: dict, signature: str) -> tuple[dict, str, int]:
     try:
         (r,) = core.run_tasks("sim.driver:_shrink_task",
                               [{"module": module, "scenario": scenario, "signature": signature}, ],
-                              workers=2, wall_s=600)[:1]
+                              workers=1, wall_s=600, force_pool=True, mem_gib=_mem(module))[:1]
     except core.HarnessError:
         return scenario, signature, 0
     if r["signature"] is None:
@@ -52,11 +56,13 @@ def shrink(module: str, scenario: dict, signature: str) -> tuple[dict, str, int]
 
 def _eval_task(task: dict):
     mod = importlib.import_module(task["module"])
-    return mod.evaluate(task["scenario"])
+    sig = mod.evaluate(task["scenario"])
+    return {"signature": sig, "site": getattr(mod, "LAST_SITE", None) if sig is not None else None}
 
 
-def fresh_evaluate(module: str, scenario: dict):
-    (r,) = core.run_tasks("sim.driver:_eval_task", [{"module": module, "scenario": scenario}], workers=2, wall_s=600)[:1]
+def fresh_evaluate(module: str, scenario: dict) -> dict:
+    (r,) = core.run_tasks("sim.driver:_eval_task", [{"module": module, "scenario": scenario}], workers=1, wall_s=600,
+                          force_pool=True, mem_gib=_mem(module))[:1]
     return r
 
 
@@ -89,13 +95,14 @@ def main(mod, argv=None) -> int:
 
 def _replay(mod, path: str) -> int:
     doc = core.load_replay(path)
-    got = fresh_evaluate(mod.__name__, doc["scenario"])
+    res = fresh_evaluate(mod.__name__, doc["scenario"])
+    got = res["signature"]
     want = doc.get("signature")
     print(f"REPLAY property={mod.PROP} recorded={want!r} observed={got!r}")
     if got is None:
         print("REPLAY no violation observed on this tree")
         return core.EXIT_OK
-    known = _match_known(mod, {"signature": got, "scenario": doc["scenario"]})
+    known = _match_known(mod, {"signature": got, "scenario": doc["scenario"], "site": res.get("site")})
     if known is not None:
         print(f"KNOWN-FINDING: property={mod.PROP} {known['what']}")
         return core.EXIT_OK
@@ -164,7 +171,7 @@ def _run(mod, args, timer) -> int:
 
     by_sig: dict[str, list[dict]] = {}
     for v in violations:
-        by_sig.setdefault(_sig_class(v["signature"]), []).append(v)
+        by_sig.setdefault(_sig_class(v), []).append(v)
     n_viol = 0
     known_hits: dict[str, int] = {}
     for sig in sorted(by_sig):
@@ -179,7 +186,7 @@ def _run(mod, args, timer) -> int:
         reported += 1
         scen, final_sig, evals = shrink(mod.__name__, v["scenario"], v["signature"])
         path = core.write_replay(mod.PROP, v["run_seed"], scen, final_sig,
-                                 {"original_signature": v["signature"], "shrink_evaluations": evals,
+                                 {"original_signature": v["signature"], "shrink_evaluations": evals, "site": v.get("site"),
                                   "occurrences_this_run": len(by_sig[sig]), "verif_seed": seed, "tier": tier})
         print(f"  violation: {final_sig}  (x{len(by_sig[sig])}, shrunk in {evals} evaluations)")
         print(f"VIOLATION property={mod.PROP} replay={path}", flush=True)
@@ -205,5 +212,6 @@ def _run(mod, args, timer) -> int:
     return exit_code
 
 
-def _sig_class(sig: str) -> str:
-    return sig
+def _sig_class(v: dict) -> str:
+    site = v.get("site") or {}
+    return v["signature"] + (f" @ {site.get('file')}:{site.get('func')}" if site else "")
